@@ -19,6 +19,8 @@ pub enum HostEv {
 pub struct Host {
     /// symbols the host resolves and the value it answers
     pub resolve: HashMap<u64, V>,
+    /// whether the host accepts external applies (answering `apply_sentinel`) or declines them
+    pub apply_accept: bool,
     pub log: Vec<HostEv>,
 }
 
@@ -226,7 +228,7 @@ impl<'a, 'e> Ev<'a, 'e> {
             (V::Expr(id), _) => self.call(*id, arg)?,
             (V::External(n), _) => {
                 self.host.log.push(HostEv::Apply(*n, arg.clone()));
-                V::Unit
+                if self.host.apply_accept { crate::mon::apply_sentinel(*n, &arg) } else { V::Unit }
             }
             (V::Partial(..), _) => V::Unknown,
             (V::List(_) | V::Pair(..), V::Int(_)) => int_index(f, &arg),
@@ -423,7 +425,7 @@ impl<'a, 'e> Ev<'a, 'e> {
                         V::Expr(id) => self.call(*id, V::Unit)?,
                         V::External(n) => {
                             self.host.log.push(HostEv::Apply(*n, V::Unit));
-                            V::Unit
+                            if self.host.apply_accept { crate::mon::apply_sentinel(*n, &V::Unit) } else { V::Unit }
                         }
                         V::Partial(..) => V::Unknown,
                         _ => self.defer(),
